@@ -1,8 +1,9 @@
 """C17: check configuration (PROPS_ENTRY, consumed by ./check and gen_manifest.py) and the list of lemmas that make up
 the property file (SPEC_ENTRY, consumed by tools/mkprops.py)."""
-PROPS_ENTRY = {'models': ['Model/Vsock.v', 'Model/VsockSpec.v'],
+PROPS_ENTRY = {'models': ['Model/Vsock.v', 'Model/VsockSpec.v', 'Model/ConnMgr.v', 'Model/ConnMgrSpec.v'],
  'design_ref': 'DESIGN.md 3 C17',
- 'assumptions': ['ONE established stream connection is modelled (ConnectionInfo + its RingBuffer, the parts of VsockConnectionManager::poll / recv / send / '
+ 'assumptions': ['the check also runs multi-connection histories of C18 (scenario c18-history-*): the stream and credit clauses are per connection',
+                 'ONE established stream connection is modelled (ConnectionInfo + its RingBuffer, the parts of VsockConnectionManager::poll / recv / send / '
                  'update_credit that concern it); the connection table, connection set-up / tear-down and packets of other connections are property C18',
                  'the transmit virtqueue accepts and completes every packet (add_notify_wait_pop returns Ok; C01-C05): a packet is the event (header, '
                  'payload length); if the queue refused a packet, send would return that error AFTER advancing tx_cnt (conservative, not modelled)',
